@@ -728,7 +728,6 @@ EGLPNUM_TYPENAME_QSLIB_INTERFACE EGLPNUM_TYPENAME_QSdata *EGLPNUM_TYPENAME_QScop
 	int j, col, beg, pindex, hit;
 	EGLPNUM_TYPENAME_QSdata *p2 = 0;
 	char *coln;
-	char buf[ILL_namebufsize];
 
 	/* QSlog("EGLPNUM_TYPENAME_QScopy_prob ..."); */
 
@@ -800,24 +799,20 @@ EGLPNUM_TYPENAME_QSLIB_INTERFACE EGLPNUM_TYPENAME_QSdata *EGLPNUM_TYPENAME_QScop
 		}
 	}
 
+	/* an unnamed objective stays unnamed: an invented name would occupy a slot
+	 * of the copy's row table, so that a row of that name could be added to the
+	 * original but not to its copy */
 	if (p->qslp->objname != 0)
 	{
 		ILL_UTIL_STR (p2->qslp->objname, p->qslp->objname);
-	}
-	else
-	{
-		strcpy (buf, "obj");
-		rval = ILLsymboltab_uname (&p2->qslp->rowtab, buf, "", NULL);
+		if (p2->qslp->rowtab.tablesize == 0) {
+			ILLsymboltab_create(&p2->qslp->rowtab, 100);
+		}
+		rval = ILLsymboltab_register (&p2->qslp->rowtab, p2->qslp->objname,
+																	-1, &pindex, &hit);
+		rval = rval || hit;
 		CHECKRVALG (rval, CLEANUP);
-		ILL_UTIL_STR (p2->qslp->objname, buf);
 	}
-	if (p2->qslp->rowtab.tablesize == 0) {
-		ILLsymboltab_create(&p2->qslp->rowtab, 100);
-	}
-	rval = ILLsymboltab_register (&p2->qslp->rowtab, p2->qslp->objname,
-																-1, &pindex, &hit);
-	rval = rval || hit;
-	CHECKRVALG (rval, CLEANUP);
 
 	ILLstring_reporter_copy (&p2->qslp->reporter, &p->qslp->reporter);
 
